@@ -91,6 +91,11 @@ def jobs(tier, seed):
     for m in MODES:
         out.append({'fn': 'round_q', 'cfg': {'n': 2, 'unit': 'mi', 'mode': m}})
     out.append({'fn': 'rejects', 'cfg': {}})
+    for pr, qv in ((['g', 'kg'], '1'), (['km', 'm'], '250'), (['kg', 'g'], '500')):
+        out.append({'fn': 'quantize_sequence', 'cfg': {'pair': pr, 'quant': qv, 'case': 'other-unit', 'modes': ['ROUND_HALF_EVEN', None]}})
+    for i, (m1, m2) in enumerate((('ROUND_HALF_EVEN', 'ROUND_DOWN'), ('ROUND_FLOOR', 'ROUND_CEILING'), ('ROUND_HALF_UP', 'ROUND_05UP'))):
+        out.append({'fn': 'quantize_sequence', 'cfg': {'pair': [['g', 'kg'], ['km', 'm'], ['lb', 'kg']][i], 'quant': ['1', '250', '0.5'][i],
+                                                       'case': 'mode-switch', 'modes': [m1, m2]}})
     out.append({'fn': 'kernel', 'cfg': {'impl': 'quantity', 'mode': 'ROUND_HALF_EVEN', 'explicit': True,
                                         'canary': True}, 'canary': True})
     out.append({'fn': 'quantize', 'cfg': {'pair': ['kg', 'kg'], 'flav': 'frac', 'quant': '0.25',
@@ -198,6 +203,36 @@ def quantize(E, cfg):
     E.observe('res', r.amount)
     if cfg.get('canary'):
         E.check(E.is_rounding(_mode('ROUND_HALF_DOWN'), r.amount / nq, a / nq), 'canary-quantize')
+
+
+def quantize_sequence(E, cfg):
+    """several calls in one process: an equal quantity held in another unit, the same call under another default
+    mode; every result is in the called quantity's unit and follows the mode active at its call"""
+    from quantity import Quantity
+    from decimalfp import Decimal
+    us, vs = cfg['pair']
+    u, v = C.unit(us), C.unit(vs)
+    su, sv = C.scale(u), C.scale(v)
+    a = E.rational('a', 'dec')
+    qv = Fraction(cfg['quant'])
+    quant = Quantity(Decimal(qv), v)
+    case = cfg['case']
+    if case == 'other-unit':
+        q1 = Quantity(a, u)
+        q2 = Quantity(a * Decimal(su / sv), v)            # same value, held in v
+        calls = [(q1, u, a, None), (q2, v, a * su / sv, None), (q1, u, a, None)]
+    else:
+        q1 = Quantity(a, u)
+        calls = [(q1, u, a, cfg['modes'][0]), (q1, u, a, cfg['modes'][1]), (q1, u, a, cfg['modes'][0])]
+    for i, (q, qu_, amount, mname) in enumerate(calls):
+        mname = mname or cfg['modes'][0]
+        _set_default(mname)
+        r = q.quantize(quant)
+        nq = qv * sv / C.scale(qu_)
+        E.check(r.unit is qu_ and type(r) is type(q), 'sequence-result-in-called-unit', key='quantize-sequence:unit',
+                info=[cfg, i])
+        E.check(E.is_rounding(_mode(mname), r.amount / nq, amount / nq), 'sequence-result-follows-active-mode',
+                key='quantize-sequence:value', info=[cfg, i, mname])
 
 
 def quantize_both_flavours(E, cfg):
